@@ -391,7 +391,7 @@ class C20(Prop):
         pool = [c for c in cases]
         rng.shuffle(pool)
         picked = []
-        for kind, k in (("null", 3), ("syntax", 1), ("arg", 1), ("badarg", 1), ("usage", 1), ("stream", 4), ("slurp", 1)):
+        for kind, k in (("null", 2), ("syntax", 1), ("arg", 1), ("badarg", 1), ("usage", 1), ("stream", 3), ("slurp", 1)):
             picked += [c for c in pool if c["kind"] == kind][:k if quick else 8 * k]
         for c in picked:
             d = dict(c)
